@@ -2,10 +2,12 @@
 use crate::Property;
 
 pub mod c01;
+pub mod c07;
 
 pub fn lookup(id: &str) -> Option<&'static dyn Property> {
     let p: &'static dyn Property = match id {
         "C01" => &c01::C01,
+        "C07" => &c07::C07,
         _ => return None,
     };
     Some(p)
